@@ -326,6 +326,18 @@ pub mod args {
     }
 }
 
+pub mod scripts {
+    /// What the version-script parser makes of `data`, rendered canonically.
+    pub fn version_script(data: &[u8]) -> String {
+        crate::version_script::verif_dump_version_script(data)
+    }
+
+    /// What the export-list (--dynamic-list) parser makes of `data`, rendered canonically.
+    pub fn export_list(data: &[u8]) -> String {
+        crate::export_list::verif_dump_export_list(data)
+    }
+}
+
 pub mod archive {
     /// Every entry `ArchiveIterator` yields for `data`: `(name, data offset, length)` for regular entries, `(name, 0, 0)`
     /// for thin ones, then the error text if iteration stopped with an error.
